@@ -2,6 +2,7 @@
 #include "verif.h"
 #include "sim.h"
 #include <unistd.h>
+#include <time.h>
 #include <map>
 #include <string>
 #include <unordered_set>
@@ -58,7 +59,8 @@ extern "C" void verif_case_end(int nontrivial, uint64_t h) {
       g_samples.push_back(s);
     }
   }
-  if ((g_evals & 0x3ff) == 0) verif_stats_flush();
+  // periodic flush (a sanitizer death skips atexit): at most every ~2 s of CPU time, checked every 256 cases
+  if ((g_evals & 0xff) == 0) { static clock_t last; clock_t now = clock(); if (now - last > 2 * CLOCKS_PER_SEC || g_evals <= 0x100) { last = now; verif_stats_flush(); } }
 }
 extern "C" int verif_known(const char *key) { init_once(); for (auto &k : g_known) if (k == key) return 1; return 0; }
 extern "C" void verif_known_skipped(const char *key) { g_known_skipped++; g_known_hits[key]++; }
